@@ -51,7 +51,10 @@ func (r bigIval) within(o bigIval) bool { return r.lo.Cmp(o.lo) >= 0 && r.hi.Cmp
 type narrowCheck struct {
 	P      *Program
 	assume map[string]bigIval // callee name -> assumed result range
-	memo   map[ssa.Value]*bigIval
+	// assumeVal gives the assumed range of a specific value (e.g. a load of a
+	// field whose invariant is being checked inductively)
+	assumeVal func(v ssa.Value) (bigIval, bool)
+	memo      map[ssa.Value]*bigIval
 	issues []string
 	nConv  int
 }
@@ -64,6 +67,12 @@ func (nc *narrowCheck) rng(v ssa.Value) bigIval {
 	}
 	tr, isInt := typeBigRange(v.Type())
 	res := tr
+	if nc.assumeVal != nil {
+		if a, ok := nc.assumeVal(v); ok {
+			nc.memo[v] = &a
+			return a
+		}
+	}
 	report := func(what string, r bigIval) {
 		nc.issues = append(nc.issues, fmt.Sprintf("%s at %s: value range [%s, %s] does not fit %s (witness: the upper bound)", what, nc.P.Pos(v.Pos()), r.lo, r.hi, v.Type()))
 	}
